@@ -31,8 +31,6 @@ var c16Fns = map[string]*c16Fn{
 	"Log1p": {"Log1p", d128.Log1p, bigfl.Log1p, true},
 }
 
-var c16Names = []string{"Exp", "Exp2", "Exp10", "Expm1", "Log", "Log2", "Log10", "Log1p"}
-
 var (
 	bigCmax   = new(big.Float).SetPrec(bigfl.Prec).SetInt(ref.Cmax)
 	maxFinite = new(big.Float).SetPrec(bigfl.Prec).Mul(bigCmax, bigfl.Pow10(ref.Emax))
